@@ -193,7 +193,10 @@ def run_real(ops, pool, tmpdir, inputs_log=None):
         try:
             r = apply_op(r, op, pool, tmpdir, inputs_log)
         except Exception as e:      # a legal history step that the implementation refuses
-            raise OpFailed(k, op, e)
+            err = OpFailed(k, op, e)
+            walls_set = set(w for o in ops[:k] if o[0] == 'S' for w in o[1])
+            err.partial_walls = 0 < len(walls_set) < W
+            raise err
         snaps.append(snapshot(r))
     return r, snaps
 
